@@ -198,6 +198,17 @@ MUTANTS = [
     M("c16-bool-scalar-dropped", "C16", (OB, "        if isinstance(self.right, (float, int)):\n            result += self.right", "        if isinstance(self.right, (float, int)) and not isinstance(self.right, bool):\n            result += self.right")),
     M("c16-type-check-removed", "C16", (OB, "        if not isinstance(o2, (float, int, ObservableBase)):\n            raise TypeError(\"o2 does not have the right type!\")\n\n        self.left = o1\n        self.right = o2", "        self.left = o1\n        self.right = o2")),
     M("c16-stats-uses-left-only", "C16", (OB, "        obs_samples = self.apply(nn_state, samples).data", "        obs_samples = (self.left if isinstance(getattr(self, 'left', None), ObservableBase) and isinstance(getattr(self, 'right', None), ObservableBase) else self).apply(nn_state, samples).data")),
+    # ---- C11
+    M("c11-load-skips-unitary-dict", "C11", (NS, '        if hasattr(self, "unitary_dict") and "unitary_dict" in state_dict.keys():\n            self.unitary_dict = state_dict["unitary_dict"]', '        pass')),
+    M("c11-autoload-hidden-from-visible", "C11", (CW, 'num_hidden=len(state_dict["rbm_am"]["hidden_bias"]),', 'num_hidden=len(state_dict["rbm_am"]["visible_bias"]),')),
+    M("c11-save-wrong-network", "C11", (NS, "data = {net: getattr(self, net).state_dict() for net in self.networks}", "data = {net: getattr(self, self.networks[0]).state_dict() for net in self.networks}")),
+    M("c11-f2-regression", "C11", (NS, "        metadata = dict(metadata) if metadata else {}", "        metadata = metadata if metadata else {}")),
+    M("c11-load-only-amplitude", "C11", (NS, "        for net in self.networks:\n            getattr(self, net).load_state_dict(state_dict[net])", "        for net in self.networks[:1]:\n            getattr(self, net).load_state_dict(state_dict[net])")),
+    M("c11-metadata-dropped-when-nested", "C11", (NS, "        data.update(**metadata)", "        data.update(**{k: v for k, v in metadata.items() if not isinstance(v, dict) or k == 'unitary_dict'})")),
+    M("c11-reserved-check-skipped-for-ph", "C11", (NS, "        for net in self.networks:\n            if net in metadata.keys():", "        for net in self.networks[:1]:\n            if net in metadata.keys():")),
+    M("c11-dm-autoload-aux-from-hidden", "C11", (DM, 'num_aux=len(state_dict["rbm_am"]["aux_bias"]),', 'num_aux=len(state_dict["rbm_am"]["hidden_bias"]),')),
+    M("c11-save-rounds-params", "C11", (NS, "data = {net: getattr(self, net).state_dict() for net in self.networks}", "data = {net: {k: v.float().double() for k, v in getattr(self, net).state_dict().items()} for net in self.networks}")),
+    M("c11-modelsaver-mutates-dict", "C11", ("qucumber/callbacks/model_saver.py", "            metadata = self.metadata\n", "            metadata = self.metadata\n            metadata[\"epoch\"] = epoch\n")),
 ]
 
 BENIGN = [
